@@ -264,7 +264,8 @@ def triage(vc, mod, report, args):
 
 def write_evidence(vc, mod, report, args, seed, wall, code):
     st = vc.by_status() if all(o.result for o in vc.obligations) else None
-    obl = [o for o in vc.obligations if o.kind != "cover"]
+    obl = [o for o in vc.obligations if o.kind not in ("cover", "bounded")]
+    bounded = [o for o in vc.obligations if o.kind == "bounded"]
     proved = [o for o in obl if o.result and o.result.status == solve.PROVED]
     # obligations that fail only on the inputs of a listed known finding are discharged under the recorded exclusion
     # hypothesis (hyps and not known-finding-inputs => goal); they are counted, and listed separately
@@ -298,7 +299,9 @@ def write_evidence(vc, mod, report, args, seed, wall, code):
         "discharged_under_known_finding_exclusion": len(excl),
         "refuted": len([o for o in obl if o.result and o.result.status == solve.REFUTED]) - len(excl),
         "unknown": len([o for o in obl if o.result and o.result.status == solve.UNKNOWN]),
-        "cover_queries": len(vc.obligations) - len(obl),
+        "cover_queries": len([o for o in vc.obligations if o.kind == "cover"]),
+        "bounded_standin_obligations": {"generated": len(bounded), "passed": len([o for o in bounded if o.result and o.result.status == solve.PROVED]),
+                                        "note": "bounded stand-ins: not counted in obligations/discharged"},
         "cover_satisfied": len(st["cover_ok"]) if st else 0,
         "checker_cmd": f"./check {vc.prop} --tier {args.tier}",
         "backends": backends,
